@@ -133,10 +133,10 @@ def run(ctx):
             if sos is None:
                 continue
             check_apply(ctx, fi, it, case, rets[0].value, rets[0].node, sos, S("input.signal"), S("input.noise") if noise == "notnone" else None, True)
-            if rets[0].value.origin != "copy":
-                ctx.violation("C11.4", fi, rets[0].node, f"LPF [{case}] result object", "result is not built on a copy of the input (input[:])")
+            if rets[0].value.name is not None:
+                ctx.violation("C11.4", fi, rets[0].node, f"LPF [{case}] result object", "the result is the input object itself, not a new object (e.g. a copy input[:]): the caller's signal is overwritten by the filtered one")
             else:
-                ctx.holds("C11.4", fi, rets[0].node, f"LPF [{case}] result object", "built on input[:]")
+                ctx.holds("C11.4", fi, rets[0].node, f"LPF [{case}] result object", "a newly constructed object (input[:] / constructor), not the input itself")
     # retH
     it = Interp(pkg, assumptions={"input.noise": "none", "retH": True, "fs": None}, param_classes={"input": "electrical_signal"})
     outs = it.run(fi)
@@ -198,10 +198,10 @@ def run(ctx):
         if sos is None:
             continue
         check_apply(ctx, fb, it, case, rets[0].value, rets[0].node, sos, S("input.signal"), S("input.noise") if noise == "notnone" else None, False)
-        if rets[0].value.origin != "copy":
-            ctx.violation("C11.4", fb, rets[0].node, f"BPF [{case}] result object", "result is not built on a copy of the input (input[:])")
+        if rets[0].value.name is not None:
+            ctx.violation("C11.4", fb, rets[0].node, f"BPF [{case}] result object", "the result is the input object itself, not a new object (e.g. a copy input[:]): the caller's signal is overwritten by the filtered one")
         else:
-            ctx.holds("C11.4", fb, rets[0].node, f"BPF [{case}] result object", "built on input[:]")
+            ctx.holds("C11.4", fb, rets[0].node, f"BPF [{case}] result object", "a newly constructed object (input[:] / constructor), not the input itself")
     it = Interp(pkg, assumptions={"input": ("notinst", "optical_signal")})
     outs = it.run(fb)
     ctx.check("C11.4", bool(outs) and outs[0].kind == "raise" and outs[0].exc == "TypeError", fb, fb.node, "BPF: non-optical input", "raises TypeError", "non-optical input is not rejected with TypeError")
